@@ -83,6 +83,22 @@ var c06Tables = []func(string) xp.Answer{
 	},
 }
 
+// c06JoinInfo: the registration of the custom function verif-join (registered before anything runs, and again —
+// the same function under the same name — by a goroutine of its own during every concurrent phase).
+func c06JoinInfo() []xpath.CustomFunctionInfo {
+	return []xpath.CustomFunctionInfo{{
+		Name: "verif-join",
+		FnPtr: func(args []xpath.Datum) xpath.Datum {
+			a := args[0].Literal("verif-join")
+			runtime.Gosched()
+			return xpath.NewLiteralDatum(a + "|" + args[1].Literal("verif-join"))
+		},
+		Args:          []xpath.DatumTypeChecker{xpath.TypeIsLiteral, xpath.TypeIsLiteral},
+		RetType:       xpath.TypeIsLiteral,
+		DefaultRetVal: xpath.NewLiteralDatum("verif-join-default"),
+	}}
+}
+
 func c06Setup(seed int64) {
 	r := core.CaseRng(seed, "C06-setup", 0)
 	for _, src := range c06ExtraSources {
@@ -93,17 +109,7 @@ func c06Setup(seed int64) {
 	}
 	// a custom (plugin-style) function, registered once before anything runs: a pure function of its
 	// two operands, so every run must see exactly its own operands
-	xpath.RegisterCustomFunctions([]xpath.CustomFunctionInfo{{
-		Name: "verif-join",
-		FnPtr: func(args []xpath.Datum) xpath.Datum {
-			a := args[0].Literal("verif-join")
-			runtime.Gosched()
-			return xpath.NewLiteralDatum(a + "|" + args[1].Literal("verif-join"))
-		},
-		Args:          []xpath.DatumTypeChecker{xpath.TypeIsLiteral, xpath.TypeIsLiteral},
-		RetType:       xpath.TypeIsLiteral,
-		DefaultRetVal: xpath.NewLiteralDatum("verif-join-default"),
-	}})
+	xpath.RegisterCustomFunctions(c06JoinInfo())
 	for _, src := range []string{"verif-join(a, b)", "verif-join(../x, concat(a, 'k')) = verif-join(b, 'z')", "string-length(verif-join(/r/s[k = current()/../a]/t, a)) > 3"} {
 		if m, err := expr.NewExprMachineWithCustomFunctions(src, c02PfxMap); err == nil {
 			c06Machines = append(c06Machines, &c06Machine{src: src, m: m})
@@ -297,6 +303,17 @@ func (p *c06) Run(tier string, seed int64, idx int) core.CaseResult {
 			got[g] = out
 		}(g)
 	}
+	// a plugin loader at work while machines are compiled and run: it registers the same function again
+	wg.Add(1)
+	go func() {
+		defer wg.Done()
+		<-start
+		for i := 0; i < 12; i++ {
+			xpath.RegisterCustomFunctions(c06JoinInfo())
+			runtime.Gosched()
+		}
+	}()
+	res.Ev("registrations_during_the_concurrent_phase", 12)
 	close(start)
 	wg.Wait()
 	xpath.VerifSetYield(0)
